@@ -61,7 +61,7 @@ func sameSlice[T any](a, b []T) bool             { return len(a) == len(b) }
 func sameVal[T any](a, b T) bool                 { return true }
 func sameBase[T any](a, b []T) bool              { return true }
 func freshBase[T any](a []T) bool                { return true }
-func present(x any) bool                          { return x != nil }
+func present(x any) bool                         { return x != nil }
 func uninterp[T any](name string, args ...any) T { var z T; return z }
 func outCount() int                              { return 0 }
 func outFirst() any                              { return nil }
